@@ -113,7 +113,23 @@ public:
       break;
     case OP_SDIV:
       if (k != 0) {
+        // x := y / k truncates, so it is not invertible: y = x*k + r
+        // with |r| < |k|.
         dom.apply(OP_MULTIPLICATION, y, x, k);
+        number_t r = (k < 0 ? number_t(-1) * k : k) - number_t(1);
+        if (r > 0) {
+          typename AbsDom::interval_t yi =
+              dom[y] + typename AbsDom::interval_t(number_t(-1) * r, r);
+          dom -= y;
+          if (yi.lb().is_finite()) {
+            dom += linear_constraint_t(linear_expression_t(y) >=
+                                       linear_expression_t(*(yi.lb().number())));
+          }
+          if (yi.ub().is_finite()) {
+            dom += linear_constraint_t(linear_expression_t(y) <=
+                                       linear_expression_t(*(yi.ub().number())));
+          }
+        }
         if (!(x == y)) {
           dom -= x;
         }
